@@ -224,3 +224,33 @@ def _radix_hex_shaped(vals, v):
 @adapter("radix_oct_shaped")
 def _radix_oct_shaped(vals, v):
     return _radix_shaped(vals, v, "parseOctal")
+
+
+_FMT_STRINGS = {"empty": "", "a": "a", "e2": "é", "e3": "€", "e4": "\U0001F600", "ae2": "aé", "e2e2": "éé",
+                "e2e3": "é€", "ae4": "a\U0001F600", "e2e2e2": "ééé"}
+
+
+@adapter("fmt_pad")
+def _fmt_pad(vals, v):
+    which, tag = v["adapter_param"].split(":")
+    s = _FMT_STRINGS[tag]
+    fw = u(vals, 0)
+    left = bool(vals[1][0]) if len(vals) > 1 and vals[1] else False
+    spec = "%s%d" % ("-" if left else "", fw)
+    expected = "[" + (s.ljust(fw) if left else s.rjust(fw)) + "]"
+    lit = json.dumps(s, ensure_ascii=True)
+    if which == "arr":
+        src = '"[%%%ss]" %% [%s]' % (spec, lit)
+    else:
+        src = '"[%%(k)%ss]" %% {k: %s}' % (spec, lit)
+    return [{"source": src, "oracle": {"oracle": "stdout_json_equals", "expected": expected}}]
+
+
+@adapter("fmt_prec")
+def _fmt_prec(vals, v):
+    conv = v["adapter_param"]
+    value = f64(vals, 0)
+    prec = u(vals, 1)
+    shown = min(prec, 100000)   # larger precisions would only allocate more; the failing class is > 65535
+    return [{"source": 'std.length("%%.%d%s" %% (%r))' % (shown, conv, value), "oracle": {"oracle": "no_crash"},
+             "note": "precision from the counterexample: %d" % prec}]
